@@ -33,7 +33,7 @@ def run(ctx):
     except ImportError:
         pass
     bad = common.forbidden_scan()
-    cres = common.coq_property(PID)
+    cres = common.coq_properties([PID, "X_tables"])
     common.proof_coverage(ctx, cres, extra_tb=["table translator: harness/dump_tables.c + vlib/gen.py (Gen/TablesData.v regenerated on this run)"] +
                           (["hard-wired probe: harness/c08_probe.c + vlib/gen_hardwired.py (Gen/HardWired.v regenerated on this run); registry/typed_elements.json (pinned intended names)"] if hw else []))
     proof_broken = (not cres["ok"]) or bool(bad)
